@@ -30,11 +30,6 @@ theorem eiwm_spec (srv : Srv) (ph : Val) (it : Item) :
 
 /-! ### the loop -/
 
-/-- item `j` of the loop is skipped: the loop was entered stopped, or `stop` is on and an earlier
-    item fails. -/
-def stoppedAt (srv : Srv) (stop stopped : Bool) (items : List Item) (j : Nat) : Bool :=
-  stopped || (stop && (items.take j).any (fails srv))
-
 theorem stoppedAt_zero (srv : Srv) (stop stopped : Bool) (items : List Item) :
     stoppedAt srv stop stopped items 0 = stopped := by
   simp [stoppedAt]
@@ -208,10 +203,6 @@ theorem loop_obs_ph (srv : Srv) (stop : Bool) (items : List Item) (i : Nat) (sto
       congr 1
       simp [Function.comp_def]
 
-/-- the values read on behalf of item `c`. -/
-def obsOfItem (c : Nat) (obs : List (Nat × Val)) : List Val :=
-  (obs.filter (fun e => e.1 == c)).map (·.2)
-
 theorem loop_obs_ge (srv : Srv) (stop : Bool) (items : List Item) (i : Nat) (stopped : Bool)
     (ph : Val) : ∀ e ∈ (loop srv stop items i stopped ph).obs, i ≤ e.1 := by
   induction items generalizing i stopped ph with
@@ -288,6 +279,58 @@ theorem loop_obs_item (srv : Srv) (stop : Bool) (items : List Item) (i : Nat) (s
         simp only [obsOfItem] at this
         simp only [List.map_nil, List.nil_append, this, List.take_succ_cons, loopSteps,
           Bool.false_eq_true, if_false, lastWrite_append]
+
+theorem loopSteps_take_succ (srv : Srv) (stop : Bool) (items : List Item) (stopped : Bool)
+    (j : Nat) (it : Item) (hget : items[j]? = some it) :
+    loopSteps srv stop (items.take (j + 1)) stopped =
+      loopSteps srv stop (items.take j) stopped ++
+        (if stoppedAt srv stop stopped items j then [] else itemSteps srv it) := by
+  induction items generalizing stopped j with
+  | nil => simp at hget
+  | cons x rest ih =>
+    cases j with
+    | zero =>
+      simp at hget; subst hget
+      cases stopped <;> simp [loopSteps, stoppedAt_zero]
+    | succ j =>
+      simp only [List.getElem?_cons_succ] at hget
+      rw [stoppedAt_succ]
+      simp only [List.take_succ_cons, loopSteps]
+      cases stopped with
+      | true => simp only [if_true]; exact ih true j hget
+      | false =>
+        simp only [Bool.false_eq_true, if_false]
+        rw [ih _ j hget, List.append_assoc]
+
+/-- the observations of a cell run are the initial content, `""`, or values set by the run. -/
+theorem runActs_obs_origin (c : Val) (as : List PAct) :
+    ∀ v ∈ (runActs c as).2, v = c ∨ v = 0 ∨ PAct.set v ∈ as := by
+  induction as generalizing c with
+  | nil => simp [runActs]
+  | cons a as ih =>
+    intro v hv
+    cases a with
+    | read =>
+      simp only [runActs, stepCell, Option.toList_some, List.cons_append, List.nil_append,
+        List.mem_cons] at hv
+      rcases hv with h | h
+      · exact Or.inl h
+      · rcases ih c v h with h | h | h
+        · exact Or.inl h
+        · exact Or.inr (Or.inl h)
+        · exact Or.inr (Or.inr (by simp [h]))
+    | set w =>
+      simp only [runActs, stepCell, Option.toList_none, List.nil_append] at hv
+      rcases ih w v hv with h | h | h
+      · exact Or.inr (Or.inr (by simp [h]))
+      · exact Or.inr (Or.inl h)
+      · exact Or.inr (Or.inr (by simp [h]))
+    | clear =>
+      simp only [runActs, stepCell, Option.toList_none, List.nil_append] at hv
+      rcases ih 0 v hv with h | h | h
+      · exact Or.inr (Or.inl h)
+      · exact Or.inr (Or.inl h)
+      · exact Or.inr (Or.inr (by simp [h]))
 
 /-! ### the first failed response item -/
 
